@@ -695,8 +695,11 @@ class PyvalColorizer:
             # In Python < 3.9, non-slices are always wrapped in an Index node.
             sub = sub.value
         self._output('[', self.GROUP_TAG, state)
-        if isinstance(sub, ast.Tuple):
+        if isinstance(sub, ast.Tuple) and len(sub.elts) > 1:
             self._multiline(self._colorize_iter, sub.elts, state)
+        elif isinstance(sub, ast.Tuple) and len(sub.elts) == 1:
+            # keep the trailing comma, otherwise it's not a tuple anymore.
+            self._multiline(self._colorize_iter, sub.elts, state, suffix=',')
         else:
             state.result.append(self.WORD_BREAK_OPPORTUNITY)
             self._colorize(sub, state)
